@@ -18,16 +18,24 @@ from harness.core import Atom, Failure, Mismatch, Result, sx
 
 MANIFEST = dict(
     design_ref="DESIGN.md §6 Group T (C18)",
-    text="Coq theorems about LTS models of EventDebouncer.run/handle_event/stop (repaired wait loop; pinned loop refuted: "
-         "F5), of AutoRestartTrick's stop/start/restart protocol over a process table and of ShellCommandTrick's "
-         "wait/drop options, for every label list (interleaving) without length bound; the models are tied to /repo by "
-         "replaying, in the extracted model, the scheduler traces of the real classes run under the deterministic "
-         "scheduler with a virtual clock and a simulated process table, and the property text is evaluated as an "
-         "oracle on the public history of every run.",
+    text="Coq theorems, for every label list (interleaving of client critical sections, thread steps and clock ticks; no "
+         "length bound), about an LTS model of EventDebouncer.run/handle_event/stop with the repaired wait loop (exactly once "
+         "in arrival order, non-empty batches, nothing after stop, quiet-interval rule, no deadlock, exit within 5 own steps "
+         "after stop, delivery progress; the pinned loop is refuted: F5) and about a model of ShellCommandTrick's "
+         "wait/drop options (no overlapping commands). For AutoRestartTrick an LTS model of the stop/start/restart protocol "
+         "over a process table carries machine-checked REFUTATIONS of the pinned protocol (two children alive, orphan "
+         "survives stop(), child alive when stop() returns: F12); the full statements for the repaired protocol "
+         "(_restart_process under the lock) are stated as Definitions and NOT yet proved - they are checked by the oracle on "
+         "every scheduler run and by a sequential outcome correspondence with the extracted model only. The models are tied "
+         "to /repo by replaying, in the extracted debouncer model, the scheduler trace of every real run lock-step, and by "
+         "outcome-level comparisons for the restart (non-overlapping operation sequences) and shell (paced runs) models; "
+         "the property text is evaluated as an oracle on the public history / process-table log of every run.",
     note="Trusted: Coq kernel; the scheduler twins of threading/time (documented behaviour of Lock/RLock/Condition/"
          "Event/Thread; no spurious wake-ups, as in CPython); the simulated process table (a child dies when "
          "signalled according to a scripted behaviour, SIGKILL always kills). Correspondence and oracle runs are sampled "
-         "(quick) / exhaustive up to 2 pre-emptions on small programs (thorough).",
+         "(quick: seeded random schedules; thorough: additionally all schedules with <= 2 pre-emptions of small programs). "
+         "AutoRestartTrick part: proof level applies to the refutations only. Assumes start() has returned before events/"
+         "stop() are issued, one stop() caller, one dispatching thread for ShellCommandTrick.",
     technique="Coq proof (LTS invariants) + lock-step trace replay in the extracted model + deterministic-scheduler "
               "exploration of the real code with a property oracle",
 )
@@ -42,6 +50,8 @@ ASSUMPTIONS = [
     "one EventDebouncer thread per Condition (as in the source); handle_event/stop may be called from any number of threads",
     "a child process that is sent SIGKILL is gone; a child sent the stop signal exits at once, after a delay, or never "
     "(scripted); os.killpg on a reaped child raises ProcessLookupError",
+    "AutoRestartTrick.start() has returned before on_any_event()/stop() are called; stop() is called by one thread; "
+    "ShellCommandTrick.on_any_event is called by one thread at a time (the observer's dispatch thread)",
 ]
 
 UNIT = 0.25          # seconds per model time unit (exactly representable)
@@ -280,7 +290,8 @@ def deb_oracle(case, s, info):
                 bad.append(("events were handed over, stop() was never called, the debouncer is at rest, "
                             "but they were not delivered", missing, "every event delivered exactly once"))
     for n, e in s.uncaught():
-        bad.append(("uncaught exception in thread " + n, repr(e), "none"))
+        if n not in s.alive_after:      # (a thread alive at the end is torn down by the scheduler: not an observation)
+            bad.append(("uncaught exception in thread " + n, repr(e), "none"))
     return bad
 
 
@@ -564,9 +575,12 @@ def rs_oracle(case, s, table):
                             "1 + events returned before stop() <= spawns <= 1 + events + self-exits"))
         end = ev.get("end")
         if end is not None and stop_call is None and case["restart_on_exit"] and any(e[1] == "started" for e in s.events):
-            if len(end[2]) != 1:
+            last = max([units(e[2]) for e in table.log] + [units(p.exit_time) for p in table.procs if p.exit_time is not None
+                                                            and p.exit_time <= end[-2]])
+            # judged only when the process table has been quiet for 0.5 s (the watcher polls every 0.1 s)
+            if len(end[2]) != 1 and last <= units(end[-2]) - 2:
                 bad.append(("no child is running although the trick was not stopped (restart on exit enabled)",
-                            {"alive": end[2]}, "exactly one child alive"))
+                            {"alive": end[2], "last_process_event": last, "end": units(end[-2])}, "exactly one child alive"))
     for n, e in s.uncaught():
         bad.append(("uncaught exception in thread " + n, repr(e), "none"))
     return bad
@@ -863,6 +877,8 @@ def run(ctx) -> Result:
     res.rule = ("debouncer: client scripts (start/handle_event/sleep/stop/join, 1-3 client threads, interval 0-3 units of "
                 "0.25 s) x schedules (seeded random; bounded-pre-emption enumeration for the fixed programs); distinct = "
                 "(program, schedule); non-trivial = at least one event and (a stop or a second event)")
+    import watchdog
+    res.notes.append(f"watchdog under test: {watchdog.__file__} (WATCHDOG_REPO={core.REPO})")
     run_debouncer(ctx, res)
     run_restart(ctx, res)
     run_shell(ctx, res)
